@@ -1,0 +1,62 @@
+//go:build verif
+
+package parquet
+
+// Hooks for the verification harness under /verif (build tag "verif").
+// Add-only: nothing here is compiled without the tag.
+
+import (
+	"bytes"
+	"fmt"
+
+	"github.com/parsyl/parquet/internal/bitpack"
+	"github.com/parsyl/parquet/internal/rle"
+)
+
+// VerifRLEEncode runs the level encoder exactly as writeLevels does.
+func VerifRLEEncode(width int32, levels []uint8) (out []byte, err error) {
+	defer func() {
+		if r := recover(); r != nil {
+			err = fmt.Errorf("panic: %v", r)
+		}
+	}()
+	var b bytes.Buffer
+	if e := writeLevels(&b, levels, width); e != nil {
+		return nil, e
+	}
+	return b.Bytes(), nil
+}
+
+// VerifRLEDecode runs the level decoder exactly as readLevels does.
+func VerifRLEDecode(width int32, data []byte) (levels []uint8, n int, err error, panicked bool) {
+	defer func() {
+		if r := recover(); r != nil {
+			err = fmt.Errorf("panic: %v", r)
+			panicked = true
+		}
+	}()
+	levels, n, err = readLevels(bytes.NewBuffer(data), width)
+	return levels, n, err, false
+}
+
+// VerifBitPack calls bitpack.Pack(nil, width, vals).
+func VerifBitPack(width int, vals []uint8) []byte {
+	return bitpack.Pack(make([]byte, 0, bitpack.MaxSize), width, vals)
+}
+
+// VerifBitUnpack calls bitpack.Unpack(width, data).
+func VerifBitUnpack(width int, data []byte) []uint8 {
+	return bitpack.Unpack(width, data)
+}
+
+// VerifPoisonPool puts n garbage-filled buffers of the given size into the
+// runtime's buffer pool, so later Gets may observe stale contents.
+func VerifPoisonPool(n, size int, fill byte) {
+	for i := 0; i < n; i++ {
+		b := buffpool.Get()
+		b.B = append(b.B[:0], bytes.Repeat([]byte{fill}, size)...)
+		defer buffpool.Put(b)
+	}
+}
+
+var _ = rle.New
